@@ -30,8 +30,12 @@ Definition prim_bits (k : dkind) : Z := match k with D64 => 64 | D128 => 128 end
                  false: num_traits::checked_pow on the decimal primitive (bind error if it does not fit)
    d2d_validates true: DecimalToDecimal::cast validates the rescaled value against the target precision
                  (and bind fails if 10^|scale diff| does not fit the target primitive);
-                 false: the rescaled value is stored unvalidated *)
-Record dparams := { max64 : Z; max128 : Z; pow_i32 : bool; d2d_validates : bool }.
+                 false: the rescaled value is stored unvalidated
+   res_validates true: DecimalAdd/Sub/Mul::execute use checked_add/sub/mul on the primitive and validate the
+                 result against the precision of the OUTPUT type (arith/{add,sub,mul}.rs after "fix: integer
+                 and decimal arithmetic must fail with an error ..."): anything else is an error;
+                 false: the native operator, result not validated (what the source did before) *)
+Record dparams := { max64 : Z; max128 : Z; pow_i32 : bool; d2d_validates : bool; res_validates : bool }.
 Definition max_prec (P : dparams) (k : dkind) : Z := match k with D64 => max64 P | D128 => max128 P end.
 
 (* DecimalTypeMeta::new_for_datatype_id for the signed integer widths (scale 0) *)
@@ -91,8 +95,14 @@ Definition cast_operand (P : dparams) (m : mode) (k : dkind) (p' s' : Z) (o : op
       if validate_precision P k x p' then Ok x else Err))
   end.
 
-(* DecimalAdd / DecimalSub: result (type, value); the unscaled integers are combined with the
-   native operator on the primitive and the result is NOT validated against the precision *)
+(* storing the mathematical result x of combining the two unscaled integers, output precision p':
+   `match a.checked_add(&b) { Some(v) if D::validate_precision(v, precision).is_ok() => put, _ => failed }` *)
+Definition dec_result (P : dparams) (st : style) (m : mode) (k : dkind) (p' x : Z) : outcome Z :=
+  if res_validates P
+  then bind_out (checked k x) (fun v => if validate_precision P k v p' then Ok v else Err)
+  else arith_result st m Signed (prim_bits k) x.
+
+(* DecimalAdd / DecimalSub: result (type, value) *)
 Definition dec_addsub (P : dparams) (st : style) (m : mode) (k : dkind) (sub : bool) (l r : operand)
   : (Z * Z * bool) * outcome Z :=
   let '(p1, s1) := op_meta l in
@@ -101,7 +111,7 @@ Definition dec_addsub (P : dparams) (st : style) (m : mode) (k : dkind) (sub : b
   ((p', s', exc),
    bind_out (cast_operand P m k p' s' l) (fun a =>
    bind_out (cast_operand P m k p' s' r) (fun b =>
-     arith_result st m Signed (prim_bits k) (if sub then a - b else a + b)))).
+     dec_result P st m k p' (if sub then a - b else a + b)))).
 
 (* the mathematical result at scale s' *)
 Definition op_unscaled (o : operand) : Z := match o with ODec _ _ v => v | OInt _ v => v end.
@@ -127,14 +137,14 @@ Definition mul_type (P : dparams) (k : dkind) (p1 s1 p2 s2 : Z) : option (Z * Z 
     if np <? new_scale then None else Some (np, new_scale, clamped).
 
 (* DecimalMul::execute: operands keep their own scale (an integer is cast to decimal(int_meta, 0),
-   value unchanged); native `*` on the primitive; no validation *)
+   value unchanged); checked_mul on the primitive, validated against the output precision *)
 Definition dec_mul (P : dparams) (st : style) (m : mode) (k : dkind) (l r : operand)
   : option ((Z * Z * bool) * outcome Z) :=
   let '(p1, s1) := op_meta l in
   let '(p2, s2) := op_meta r in
   match mul_type P k p1 s1 p2 s2 with
   | None => None
-  | Some t => Some (t, arith_result st m Signed (prim_bits k) (op_unscaled l * op_unscaled r))
+  | Some t => Some (t, dec_result P st m k (fst (fst t)) (op_unscaled l * op_unscaled r))
   end.
 Definition spec_mul (P : dparams) (k : dkind) (l r : operand) : option (outcome Z) :=
   let '(p1, s1) := op_meta l in
